@@ -93,6 +93,8 @@ func mapEncoderAgrees(op *encOp, got node) error {
 		fieldsPart.keys = fieldsPart.keys[:len(fieldsPart.keys)-1]
 		fieldsPart.elems = fieldsPart.elems[:len(fieldsPart.elems)-1]
 	}
+	reflRawOnly = true
+	defer func() { reflRawOnly = false }()
 	m := zapcore.NewMapObjectEncoder()
 	for _, c := range op.Ctx {
 		for _, f := range buildFields(c) {
@@ -182,6 +184,8 @@ func sameShape(path string, j node, v any) error {
 // mapSkeleton: the nesting zapcore.MapObjectEncoder records for the op's context and call-site fields — keys (hex,
 // sorted), objects, arrays; leaf payloads are left out (they are Go values the map keeps raw).
 func mapSkeleton(op *encOp) any {
+	reflRawOnly = true
+	defer func() { reflRawOnly = false }()
 	m := zapcore.NewMapObjectEncoder()
 	for _, c := range op.Ctx {
 		for _, f := range buildFields(c) {
